@@ -31,7 +31,7 @@ func init() {
 		Bounds: func(tier string) map[string]any {
 			return map[string]any{"max_params": 3, "max_columns": 3, "value_alphabet": []string{"NULL", "", "a", "\\x00", "1"}, "declared_oid_lists": c08OidLists(tier)}
 		},
-		RequiredOutcomes: []string{"with-null", "no-null", "typed", "rebind", "two-portals", "wide"},
+		RequiredOutcomes: []string{"with-null", "no-null", "typed", "rebind", "two-portals", "wide", "prespecified"},
 	})
 }
 
@@ -424,6 +424,52 @@ func c08RunTyped(ps []typedParam, private ...bool) explore.Result {
 	return res
 }
 
+// c08RunPrespecified: the client pre-declares parameter types in its Parse message. The statement's DECLARED types
+// are the handler's (it hands the library one list which it reuses for every statement): that list is never
+// written to, and a later statement — on this or on another connection — is described with exactly that list.
+func c08RunPrespecified(pre []uint32, sameConn bool) explore.Result {
+	var res explore.Result
+	res.Outcome = "prespecified"
+	res.Key = fmt.Sprint("prespecified", pre, sameConn)
+	declared := []oid.Oid{0, oid.T_text, 0}
+	orig := append([]oid.Oid(nil), declared...)
+	parse := func(ctx context.Context, q string) (wire.PreparedStatements, error) {
+		return wire.Prepared(wire.NewStatement(func(ctx context.Context, w wire.DataWriter, params []wire.Parameter) error {
+			return w.Complete("OK")
+		}, wire.WithParameters(declared))), nil
+	}
+	srv, err := harness.NewServer(parse)
+	if err != nil {
+		res.Engine = err.Error()
+		return res
+	}
+	defer srv.Stop()
+	c1 := srv.Connect()
+	c1.Step(pgproto.Startup("user", "u1"))
+	c1.Step(pgproto.Cat(pgproto.Parse("s", "q $1 $2 $3", pre...), pgproto.Describe('S', "s"), pgproto.Sync()))
+	c2 := c1
+	if !sameConn {
+		c1.End()
+		c2 = srv.Connect()
+		c2.Step(pgproto.Startup("user", "u2"))
+	}
+	out, _ := c2.Step(pgproto.Cat(pgproto.Parse("t", "q $1 $2 $3"), pgproto.Describe('S', "t"), pgproto.Sync()))
+	ms, perr := pgproto.ParseBackend(out)
+	what := fmt.Sprintf("an earlier Parse pre-declared the types %v (same connection: %v); a later statement declaring %v", pre, sameConn, orig)
+	if perr != nil || len(ms) < 2 || ms[1].Type != 't' {
+		res.Fail("reply-sequence", fmt.Sprintf("%s: Parse + Describe answered %q %v", what, pgproto.Kinds(ms), perr))
+		return res
+	}
+	if fmt.Sprint(ms[1].OIDs) != fmt.Sprint([]uint32{0, 25, 0}) {
+		res.Fail("parameter-description", fmt.Sprintf("%s was described as %v", what, ms[1].OIDs))
+	}
+	if fmt.Sprint(declared) != fmt.Sprint(orig) {
+		res.Fail("declared-list-modified", fmt.Sprintf("%s: the list the handler handed to WithParameters now reads %v", what, declared))
+	}
+	res.Trans = []string{"parsed(prespecified)|parse|described"}
+	return res
+}
+
 // c08RunRebind: the same portal name is bound several times to the same statement with different
 // result-format sections (and parameter values); after every Bind the portal must reflect THAT Bind.
 func c08RunRebind(cols int, rounds [][]int16) explore.Result {
@@ -690,6 +736,15 @@ func c08Enumerate(tier string, emit explore.Emit) {
 					}
 				}
 			}
+		}
+	}
+	// types pre-declared by the client in Parse
+	for _, pre := range [][]uint32{{20}, {20, 0}, {0, 0, 23}, {20, 21, 23}, {20, 21, 23, 25}} {
+		for _, same := range []bool{true, false} {
+			pre, same := pre, same
+			emit(explore.Case{Family: "prespecified-types", Size: 4,
+				Desc: func() any { return map[string]any{"types_in_an_earlier_parse": pre, "same_connection": same} },
+				Run:  func() explore.Result { return c08RunPrespecified(pre, same) }})
 		}
 	}
 	// types registered on the connection's own type map only
